@@ -73,9 +73,8 @@ func (g *Generator) parseFields(typeName string) types.Type {
 						names = append(names, n.Name)
 					}
 					typeParamsMap[i] = strings.Join(names, ", ")
-					if ident, ok := p.Type.(*ast.Ident); ok {
-						typeParams = append(typeParams, ident.Name)
-					}
+					//any constraint expression, not only identifiers (cmp.Ordered, ~int | ~string)
+					typeParams = append(typeParams, types.ExprString(p.Type))
 				}
 			}
 
